@@ -80,15 +80,16 @@ func (i ImportNames) TypeName(t types.Type) string {
 			// A universe type such as "error".
 			return typ.Obj().Name()
 		}
-		if pkgName, ok := i[typ.Obj().Pkg().Path()]; ok {
+		if pkgName, ok := i[typ.Obj().Pkg().Path()]; ok && pkgName != "." {
 			return fmt.Sprintf("%v.%v", pkgName, typ.Obj().Name())
 		}
+		// A type of the setup file's own package, or of a dot-imported one: no qualifier.
 		return typ.Obj().Name()
 	default:
 		// Qualify named types inside composite types (slices, maps, ...) the same way as above
 		// instead of with their import path.
 		return types.TypeString(t, func(p *types.Package) string {
-			if pkgName, ok := i[p.Path()]; ok {
+			if pkgName, ok := i[p.Path()]; ok && pkgName != "." {
 				return pkgName
 			}
 			return ""
